@@ -94,7 +94,7 @@ CLAIMS = {
  "C08": ("Theorems over EVERY label sequence (polls of any task at any time, clock advances of any size, unsubscribe, downstream finishing): "
          "C08_interval / C08_interval_at (consecutive integers, first not before one period / the given instant, later ones at least one period "
          "apart, never after unsubscribe), C08_interval_prompt (exactly one period apart when polled as the timer falls due), C08_timer (the item "
-         "once, not before the due time, then completion), C08_async_prefix / C08_async_complete / C08_async_silent_after_unsub (from_future / "
+         "once, not before the due time, then completion), C08_async_prefix / C08_async_complete / C08_future_complete / C08_async_silent_after_unsub (from_future / "
          "from_stream and the _result forms relay exactly what the scripted future / stream yields, then terminate). These predicates are proved "
          "of the timed model by simulation and evaluated on every implementation trace; full traces are compared with the model on 390k cases.",
          "DESIGN.md section 5 C08"),
